@@ -64,6 +64,18 @@ def run(tier, wd):
     # binding, dash-prefixed tokens and further -- included
     specs_b = g.family(p, 30 if q else 300, core.seed() + 7)
     gb, seen = [], set()
+    # two spec-level -- of which the first sits in a choice branch or an optional group: the second one still ends the options on the
+    # paths around the first
+    A_, X_, Y_ = g.Opt("-a"), g.Arg("X"), g.Arg("Y")
+    for e_ in [g.Seq(g.Alt(A_, g.Seq(g.End(), Y_)), g.End(), g.Rep(X_)), g.Seq(g.Optional(g.Seq(g.End(), Y_)), g.End(), g.Rep(X_)),
+               g.Seq(Y_, g.Optional(g.Seq(g.End(), Y_)), g.End(), g.Rep(X_)), g.Seq(g.Alt(X_, g.Seq(g.End(), Y_)), g.End(), g.Rep(X_))]:
+        st = g.render(p, e_)
+        if st in [x["str"] for x in specs_b]:
+            continue
+        specs_b.append({"ast": e_, "str": st})
+        for line in (["-a", "-r", "-s"], ["a", "-r"], ["-r"], ["a", "-r", "-s", "b"], ["-a", "--", "-r"], ["--", "p", "-r"], ["a", "b", "-r"], ["-a"], ["a"], ["-a", "-a"],
+                     ["a", "--", "-r"], ["a", "--", "--", "-r"]):
+            gb.append({"rel": "single", "members": [{"si": len(specs_b) - 1, "env": [], "argv": line}]})
     per_spec = 25 if q else 120
     for si, s in enumerate(specs_b):
         tries = n = 0
